@@ -57,6 +57,9 @@ def check_ms(ctx, mss):
             ctx.unexpected(o, "epoch_time_to_utc_datetime", one(ms))
             continue
         dt = o.value
+        if not isinstance(dt, D.datetime) or dt.tzinfo is None:
+            ctx.violation("epoch_to_datetime_not_an_aware_datetime", {"ms": ms, "got": repr(dt)}, one(ms))
+            continue
         if dt != want_dt or dt.utcoffset() != D.timedelta(0):
             ctx.violation("epoch_to_datetime_wrong", {"ms": ms, "got": str(dt), "want": str(want_dt)}, one(ms))
         if prev is not None and dt < prev:
@@ -125,7 +128,9 @@ def check_us(ctx, uss, aware):
             ctx.violation("datetime_to_epoch_not_monotone", {"us": us, "got": o.value, "prev": prev}, c1)
         prev = o.value
         o2 = call(T.epoch_time_to_utc_datetime, o.value)
-        if o2.ok and abs(o2.value - us_to_dt(us)) > MS:
+        if o2.ok and (not isinstance(o2.value, D.datetime) or o2.value.tzinfo is None):
+            ctx.violation("epoch_to_datetime_not_an_aware_datetime", {"us": us, "got": repr(o2.value)}, c1)
+        elif o2.ok and abs(o2.value - us_to_dt(us)) > MS:
             ctx.violation("datetime_roundtrip_beyond_1ms", {"us": us, "got": str(o2.value)}, c1)
     ctx.count("us_instants", len(uss))
 
